@@ -16,6 +16,7 @@ package c05
 
 import (
 	"bytes"
+	"encoding/json"
 	"fmt"
 	"math/big"
 	"strings"
@@ -38,8 +39,9 @@ func init() { hx.Register("C05", Run) }
 
 type blockInput struct {
 	Seed    int64     `json:"seed"`
-	Block   int       `json:"block"`   // index of the generated block (replay: regenerate up to it with the same seed)
-	Witness string    `json:"witness"` // deterministic probe name, or ""
+	Block   int       `json:"block"`           // index of the generated block (replay: regenerate up to it with the same seed)
+	Witness string    `json:"witness"`         // deterministic probe name, or ""
+	Price   string    `json:"price,omitempty"` // witness "gasprice": the gas price (decimal)
 	Txs     []*txDesc `json:"txs"`
 	Failed  int       `json:"failed_tx"`
 }
@@ -58,8 +60,16 @@ func Run(c *hx.Ctx) {
 	}
 	defer w.k.Close()
 	if replay && in.Witness != "" {
-		witnesses(w, in.Witness)
+		witnesses(w, &in)
 		return
+	}
+	if !replay { // regression probes of repaired findings run first
+		for _, raw := range c.CorpusInputs() {
+			var ci blockInput
+			if json.Unmarshal(raw, &ci) == nil && ci.Witness != "" {
+				witnesses(w, &ci)
+			}
+		}
 	}
 	n := c.N(130, 1200)
 	if replay {
@@ -72,7 +82,7 @@ func Run(c *hx.Ctx) {
 		}
 	}
 	if !replay {
-		witnesses(w, "")
+		witnesses(w, &blockInput{Witness: "deploy-destroyed"})
 	}
 }
 
@@ -89,7 +99,7 @@ func (w *world) oneBlock(idx int, report bool) bool {
 		txs, descs = append(txs, tx), append(descs, d)
 		return true
 	}
-	if c.Intn(3) == 0 {
+	if c.Intn(2) == 0 {
 		if !add(w.refill()) {
 			return false
 		}
@@ -103,7 +113,12 @@ func (w *world) oneBlock(idx int, report bool) bool {
 			return false
 		}
 	}
-	in := &blockInput{Seed: c.Seed, Block: idx, Txs: descs}
+	return w.runBlock(&blockInput{Seed: c.Seed, Block: idx, Txs: descs}, txs, report)
+}
+
+// runBlock observes, executes, adds and checks one block of invoke transactions.
+func (w *world) runBlock(in *blockInput, txs []*types.Transaction, report bool) bool {
+	c := w.c
 	blk, err := w.k.MakeBlock(txs)
 	if err != nil {
 		c.Fail("driver-gen", "block could be built", in, err.Error(), nil)
@@ -388,6 +403,8 @@ func priceClass(p uint64) string {
 		return "price:1..9999"
 	case p <= two64div20000:
 		return "price:below-wrap"
+	case p*neovm.MIN_TRANSACTION_GAS == 0:
+		return "price:multiple-of-2^59(unit 0)"
 	default:
 		return "price:minGas-wraps"
 	}
@@ -457,16 +474,12 @@ func sortKV(l []kvPair) {
 
 var _ = ledgerkit.OngAddr
 
-// roundZero: GasPrice * MIN_TRANSACTION_GAS wraps to 0 (GasPrice a non-zero multiple of 2^59)
-func roundZero(p uint64) bool { return p != 0 && p*neovm.MIN_TRANSACTION_GAS == 0 }
-
 func (w *world) reportPanic(in *blockInput, blk *types.Block, obs []*txObs, msg string) {
 	c := w.c
-	class := "panic:other"
-	for i, tx := range blk.Transactions {
-		if i < len(obs) && obs[i] != nil && obs[i].Walk == nil && roundZero(tx.GasPrice) {
-			class = "panic:gasprice-round-zero"
-			in.Failed = i
+	class := "panic:block-execution"
+	for i := range blk.Transactions {
+		if i < len(obs) && obs[i] != nil && obs[i].Walk == nil {
+			in.Failed = i // the transaction the walk was handling
 		}
 	}
 	c.Count("block:" + class)
